@@ -633,6 +633,8 @@ func (v Value) opNeq(b Value) Value { return Bool(!v.Equals(b)) }
 
 func (v Value) Equals(b Value) bool {
 	switch {
+	case v.t == TypeNil && b.t != TypeNil:
+		return b.Equals(v) // nil == x is x == nil
 	case v.t == TypeBool:
 		return v.num == b.num
 	case (v.t & TypeFloat64) > 0:
